@@ -36,6 +36,10 @@ def run(ctx, FS):
         tail(ctx, F)
         tail_windows(ctx, F)
         prologue_windows(ctx, F)
+        # the amount counted for a piece does not depend on how the input was cut: it is the checked conversion of the
+        # piece length (or the room left below MAX_LEN), and the iterated slice is the counted one (shared with C11)
+        from . import c11
+        c11.guards(ctx, F, "R-03.7")
         wrappers(ctx, F)
     witness.finalize_shared(ctx, "R-03.1")
 
